@@ -300,6 +300,19 @@ def rule_budget(report, prog, res, rule='C19-R4'):
                                  role, norm(sts[0].value), role, attr.upper(), attr))
             else:
                 report.ok(rule, key(act.qname, '%s byte never used by this role' % attr.upper()), act.loc())
+        # the operands of the budget are current: a `self.<attr>` read by the budget expression that activate() itself assigns must have
+        # been assigned before (otherwise the budget sees the value of the previous activation / None)
+        cfg_a = cfg_of(act)
+        node_miu = cfg_a.node_of(sts[0])
+        for x in ast.walk(sts[0].value):
+            if isinstance(x, ast.Attribute) and norm(x.value) == 'self':
+                defs = [cfg_a.node_of(st) for st in walk_no_nested(act.node) if isinstance(st, ast.Assign) and any(norm(t) == norm(x) for t in st.targets)]
+                defs = [d for d in defs if d is not None and d is not node_miu]
+                if defs:
+                    okk2 = node_miu not in cfg_a.reachable(cfg_a.entry, avoid_nodes=defs)
+                    report.check(okk2, rule, key(act.qname, 'payload budget reads %s after it is assigned' % norm(x)), act.loc(sts[0]),
+                                 '%s.activate computes miu from %s before assigning it in the same activation: the optional byte is judged by a stale '
+                                 'value and full-size frames exceed the announced length' % (role, norm(x)))
         report.check(const_sub == const_ovh, rule, key(act.qname, 'payload budget subtracts the fixed overhead', str(const_ovh)),
                      act.loc(sts[0]), '%s.activate subtracts %d from LR, the encoder adds %d fixed bytes' % (role, const_sub, const_ovh))
     # frames: LEN byte = len + 1 in both encode_frame, F0 start byte for 106A only
